@@ -144,9 +144,9 @@ func cmdCheck(args []string) int {
 	lemObls, lemErr := e.lemmaObligations(*prop)
 	allObls = append(allObls, lemObls...)
 
-	cfg := SolveCfg{TimeoutS: 20, Dir: filepath.Join(*vdir, "work", *prop), Workers: 8, Seed: seed}
+	cfg := SolveCfg{TimeoutS: 60, Dir: filepath.Join(*vdir, "work", *prop), Workers: 8, Seed: seed}
 	if *tier == "thorough" {
-		cfg.TimeoutS = 90
+		cfg.TimeoutS = 240
 		cfg.All = true
 		cfg.Workers = 5
 	}
